@@ -62,6 +62,23 @@ def wide_names(name, o):
     return s
 
 
+def fuzzy_must(name, o):
+    """Fuzzy variants the documentation promises unambiguously: with all case forms enabled, the name with its
+    '-mib' suffix removed, or (if it has none) with '-mib'/'-MIB' appended."""
+    if not o.get('fuzzyMatching', True) or not all(o.get(k, True) for k in OPTS[1:]):
+        return set()
+    s = set()
+    i = name.lower().find('-mib')
+    if i >= 0:
+        for b in (name, name.upper(), name.lower()):
+            if b[:i]:
+                s.add(b[:i])
+    else:
+        s.add((name + '-mib').upper())
+        s.add((name + '-mib').lower())
+    return s
+
+
 def with_exts(names):
     return set(n + e for n in names for e in EXTS)
 
@@ -254,7 +271,7 @@ def run(scn):
                     wide |= with_exts(wide_names(name, o))
             else:
                 wide = with_exts(wide_names(name, o))
-                corev = with_exts(core_names(name, o))
+                corev = with_exts(core_names(name, o) | fuzzy_must(name, o))
             A_wide = [l for l in leaves if l['base'] in wide and l['reachable']]
             A_core = [l for l in leaves if l['base'] in corev and l['reachable'] and not l['corrupt'] and 0 < len(l['data']) < cap]
             # a core candidate that is shadowed by an earlier-tried candidate which is too large / empty / corrupt may legitimately lead to an error
@@ -435,6 +452,8 @@ def generate(rng, tier):
             continue
         used.add(path)
         e = {'path': path, 'hex': _hex(gen_content(rng, path)), 'mtime': rng.choice(SEASONS) + 2 * rng.randrange(0, 600000)}
+        if kind == 'dir' and rng.random() < 0.08:
+            e['mtime'] = rng.choice([0, 0, 1, 2])      # stamped with the Epoch (reproducible builds, image layers)
         if kind == 'zip' and rng.random() < 0.06:
             e['corrupt'] = True
         tree.append(e)
